@@ -17,7 +17,7 @@ CONSTANTS Tier,   \* "quick" | "thorough": which class sets are enumerated
           Mode    \* "grammar" | "pos" | "all"
 
 Q == Tier = "quick"
-DictLens      == IF Q THEN {0, 2, 65535, 65600} ELSE {0, 1, 2, 3, 7, 64, 65535, 65536, 65600, 140000}
+DictLens      == IF Q THEN {0, 2, 65535, 65600} ELSE {0, 1, 2, 3, 7, 64, 65535, 65600}
 LitClasses    == IF Q THEN {0, 1, 14, 15, 270} ELSE {0, 1, 14, 15, 16, 269, 270, 271, 525}
 MatchClasses  == IF Q THEN {4, 18, 19, 274} ELSE {4, 5, 18, 19, 20, 273, 274, 529}
 FinalLits     == IF Q THEN {0, 5} ELSE {0, 1, 5, 16}
